@@ -8,9 +8,9 @@ import Generated.Facts
 namespace Obl.RawRecv
 
 theorem raw_receive_shapes : Generated.rawRecvShapes = [
-  ("protocol/xreq:pipe.receiver", ["s:=p.s", "<*ast.LabeledStmt>", "p.close()"]),
+  ("protocol/xreq:pipe.receiver", ["s:=p.s", "outer:", "for", ">m:=p.p.RecvMsg()", ">if m==nil", ">>break", ">if len(m.Body)<4", ">>m.Free()", ">>continue", ">m.Header=m.Body[:4]", ">m.Body=m.Body[4:]", ">s.Lock()", ">recvQ:=s.recvQ", ">sizeQ:=s.sizeQ", ">s.Unlock()", ">select", ">>case recvQ<-m", ">>>continue", ">>case <-sizeQ", ">>>m.Free()", ">>>continue", ">>case <-p.closeQ", ">>>m.Free()", ">>>break outer", "p.close()"]),
   ("protocol/xreq:socket.RecvMsg", ["timeQ:=nilQ", "s.Lock()", "if s.recvExpire>0", ">timeQ=time.After(s.recvExpire)", "s.Unlock()", "for", ">s.Lock()", ">sizeQ:=s.sizeQ", ">recvQ:=s.recvQ", ">closeQ:=s.closeQ", ">s.Unlock()", ">select", ">>case <-closeQ", ">>>return nil,protocol.ErrClosed", ">>case <-timeQ", ">>>return nil,protocol.ErrRecvTimeout", ">>case m:=<-recvQ", ">>>return m,nil", ">>case <-sizeQ", ">>>continue"]),
-  ("protocol/xsurveyor:pipe.receiver", ["s:=p.s", "<*ast.LabeledStmt>", "p.close()"]),
+  ("protocol/xsurveyor:pipe.receiver", ["s:=p.s", "outer:", "for", ">m:=p.p.RecvMsg()", ">if m==nil", ">>break", ">if len(m.Body)<4", ">>m.Free()", ">>continue", ">m.Header=m.Body[:4]", ">m.Body=m.Body[4:]", ">s.Lock()", ">recvQ:=s.recvQ", ">sizeQ:=s.sizeQ", ">s.Unlock()", ">select", ">>case recvQ<-m", ">>case <-p.closeQ", ">>>m.Free()", ">>>break outer", ">>case <-sizeQ", ">>>m.Free()", "p.close()"]),
   ("protocol/xsurveyor:socket.RecvMsg", ["timeQ:=nilQ", "s.Lock()", "if s.recvExpire>0", ">timeQ=time.After(s.recvExpire)", "s.Unlock()", "for", ">s.Lock()", ">recvQ:=s.recvQ", ">sizeQ:=s.sizeQ", ">closeQ:=s.closeQ", ">s.Unlock()", ">select", ">>case m:=<-recvQ", ">>>return m,nil", ">>case <-closeQ", ">>>return nil,protocol.ErrClosed", ">>case <-timeQ", ">>>return nil,protocol.ErrRecvTimeout", ">>case <-sizeQ", ">>>continue"]),
   ("protocol/xsub:pipe.receiver", ["s:=p.s", "for", ">m:=p.p.RecvMsg()", ">if m==nil", ">>break", ">s.Lock()", ">recvQ:=s.recvQ", ">s.Unlock()", ">select", ">>case recvQ<-m", ">>default", ">>>m.Free()", "p.close()"]),
   ("protocol/xsub:socket.RecvMsg", ["timeQ:=nilQ", "s.Lock()", "if s.recvExpire>0", ">timeQ=time.After(s.recvExpire)", "s.Unlock()", "for", ">s.Lock()", ">closeQ:=s.closeQ", ">sizeQ:=s.sizeQ", ">recvQ:=s.recvQ", ">s.Unlock()", ">select", ">>case <-closeQ", ">>>return nil,protocol.ErrClosed", ">>case <-timeQ", ">>>return nil,protocol.ErrRecvTimeout", ">>case <-sizeQ", ">>>continue", ">>case m:=<-recvQ", ">>>return m,nil"])
